@@ -745,8 +745,8 @@ class TensorDiagram:
 
         # sums of products of small integer types must not wrap around (the Levi-Civita tensor is stored as int8)
         dtype = np.result_type(*(node.dtype for node in self._nodes))
-        if dtype.kind in "iu" and dtype.itemsize < np.dtype(np.int64).itemsize:
-            dtype = np.dtype(np.int64) if dtype.kind == "i" else np.dtype(np.uint64)
+        if dtype.kind in "biu" and dtype.itemsize < np.dtype(np.int64).itemsize:
+            dtype = np.dtype(np.uint64) if dtype.kind == "u" else np.dtype(np.int64)
         result = np.einsum(*args, result_indices[0] + result_indices[1] + result_indices[2], dtype=dtype)  # type: ignore[arg-type]
 
         n_free = len(result_indices[0])
